@@ -59,8 +59,8 @@ func reflexive(x1, x2 any) reflObs {
 	return reflObs{D: o.D, C: o.C, M: m, Pan: o.Pan || p}
 }
 
-// project: absval with one more fact for unsigned leaves above MaxInt64 ("wrap": the projection of the int64
-// with the same bit pattern), which the specification needs for its one open cell.
+// project: absval with two more facts for unsigned leaves above MaxInt64 (f64, f64exact), which the specification needs
+// to compare such a leaf with a float by value.
 func project(v any) any {
 	switch t := v.(type) {
 	case uint64:
@@ -91,7 +91,10 @@ func project(v any) any {
 func wrapFact(u uint64, p any) any {
 	if u > math.MaxInt64 {
 		m := p.(map[string]any)
-		m["wrap"] = absval.Atoms(int64(u)) // the whole integer leaf the bits denote as int64
+		// facts about the value that TLC cannot compute: the float64 it rounds to and whether that float is exactly u
+		f := float64(u)
+		m["f64"] = strconv.FormatFloat(f, 'g', -1, 64)
+		m["f64exact"] = f < 18446744073709551616.0 && uint64(f) == u
 	}
 	return p
 }
@@ -505,6 +508,31 @@ func (g *rgen) deepPair() (abs, abs) {
 	return a, b
 }
 
+// edgePairs: float / int64 against unsigned values at 2^63, 2^64-2048 (the largest float below 2^64) and MaxUint64, in
+// both argument orders (diffexec runs both), bare and nested; emitted on every run.
+func edgePairs(enc *json.Encoder) {
+	us := []abs{{"t": "int", "big": "u63", "off": 1}, {"t": "int", "big": "u63", "off": 2}, {"t": "int", "big": "umax", "off": 3},
+		{"t": "int", "big": "umax", "off": 2}, {"t": "int", "big": "u2048", "off": 0}, {"t": "int", "big": "u2048", "off": 1}}
+	others := []abs{{"t": "flt", "s": "9.223372036854775808e+18"}, {"t": "flt", "s": "-9.223372036854775808e+18"},
+		{"t": "flt", "s": "1.8446744073709549568e+19"}, {"t": "flt", "s": "1.8446744073709551616e+19"}, {"t": "flt", "s": "9.223372036854777856e+18"},
+		{"t": "flt", "s": "1.5"}, {"t": "int", "big": "min", "off": 0}, {"t": "int", "big": "min", "off": 1}, {"t": "int", "big": "max", "off": 3},
+		aInt(-1), aInt(-2), aInt(-2048), {"t": "int", "big": "u63", "off": 1}, {"t": "int", "big": "umax", "off": 3}}
+	n := 0
+	for _, u := range us {
+		for _, o := range others {
+			n++
+			wrap := func(x abs) abs { return x }
+			switch n % 3 {
+			case 1:
+				wrap = func(x abs) abs { return aArr(aInt(0), x) }
+			case 2:
+				wrap = func(x abs) abs { return aObj(map[string]any{"a": x, "b": aNull()}) }
+			}
+			enc.Encode(abs{"a": wrap(u), "b": wrap(o), "igs": [][]any{{}}, "salt": 1000 + n})
+		}
+	}
+}
+
 func diffRand(args []string) {
 	fs := flag.NewFlagSet("diffrand", flag.ExitOnError)
 	n := fs.Int("n", 1000, "number of pairs")
@@ -514,6 +542,7 @@ func diffRand(args []string) {
 	out := bufio.NewWriterSize(os.Stdout, 1<<20)
 	defer out.Flush()
 	enc := json.NewEncoder(out)
+	edgePairs(enc)
 	for i := 0; i < *n; i++ {
 		a := g.tree(1 + g.r.Intn(4))
 		var b abs
